@@ -91,6 +91,18 @@ def corpus(driver):
     sc.d(b'/W').d(b'/W/S').f(b'/W/S/f').d(b'/W/S/sub').f(b'/W/S/sub/g').d(b'/W/OUT').d(b'/W/OUT/DEST')
     sc.opts = ['r']; sc.paths = [b'S/sub/..', b'OUT/DEST']; sc.meta = dict(srcs=[b'/W/S'], dest=b'/W/OUT/DEST', destk='dir', single_file=False); sc.tag = 'F17'
     out.append(sc)
+    # a destination populated by an EARLIER copy, after which source links were re-pointed / entries became links: the entry
+    # already there is not what the source has now (exit 0 only if it has been brought up to date)
+    for variant in ('stale-link', 'file-where-link', 'dir-where-link', 'same-link'):
+        sc = treerun.Scn(); sc.driver = driver
+        sc.d(b'/W').d(b'/W/S').d(b'/W/S/rel').d(b'/W/S/rel/v1').d(b'/W/S/rel/v2').f(b'/W/S/rel/v2/x').f(b'/W/S/a').l(b'/W/S/current', b'rel/v2')
+        sc.d(b'/W/DEST').d(b'/W/DEST/S').d(b'/W/DEST/S/rel')
+        if variant == 'stale-link': sc.l(b'/W/DEST/S/current', b'rel/v1')
+        elif variant == 'same-link': sc.l(b'/W/DEST/S/current', b'rel/v2')
+        elif variant == 'file-where-link': sc.f(b'/W/DEST/S/current')
+        else: sc.d(b'/W/DEST/S/current').f(b'/W/DEST/S/current/old')
+        sc.opts = ['r']; sc.paths = [b'S', b'DEST']; sc.meta = dict(srcs=[b'/W/S'], dest=b'/W/DEST', destk='dir-populated', single_file=False); sc.tag = 'relinked-' + variant
+        out.append(sc)
     return out
 
 
@@ -109,7 +121,7 @@ def run(ctx):
         # user, ENOENT when it vanished) must make the run fail, not be skipped; a walker much slower than the workers
         extra = []
         ok_plain = {id(sc) for _, sc, o in runs if o.res.cls == '0'}
-        for i, sc in enumerate(scs[6:]):
+        for i, sc in enumerate(scs[len(corpus('parfile')) * 2:]):
             if id(sc) not in ok_plain:
                 continue            # only scenarios whose plain run succeeds
             dirs = [e['p'] for e in sc.entries if e['k'] == 'd' and any(e['p'].startswith(sr + b'/') for sr in sc.meta['srcs'])]
@@ -134,6 +146,20 @@ def run(ctx):
                 msg, known = oracle(sc, o)
                 if msg and not (known and ctx.open_finding(known)):
                     ctx.violation(f'case-{i}-{why}.json', dict(argv=[repr(x) for x in o.argv], plan=plan, oracle=msg), f'C02: with {plan}: exit 0 but {msg}')
+        # ---- resource corners of the invocation itself: `--workers 0` ("as many as there are CPUs") when the process may use ONE
+        # CPU only (a 1-vCPU machine, a cpuset, taskset): the tree must still be mirrored, or the run must fail
+        for j, (i, sc, o0) in enumerate([x for x in runs if x[2].res.cls == '0' and x[1].meta['destk'] in ('absent', 'dir-empty') and getattr(x[1], 'tag', 'gen') == 'gen'][:6 if ctx.quick else 60]):
+            keepw = sc.workers
+            sc.workers = 0
+            o = treerun.run(base, sc, trace=False, timeout=90, cpus={0})
+            sc.workers = keepw
+            ctx.count(f'one_cpu_workers0.exit.{o.res.cls}'); ctx.case(('c02-one-cpu', i, sc.driver), True)
+            if o.res.cls == 'hang':
+                ctx.violation(f'case-{i}-onecpu-hang.json', dict(argv=[repr(x) for x in o.argv]), 'xcp --workers 0 hung when one CPU is available')
+            elif o.res.cls == '0':
+                msg, known = oracle(sc, o)
+                if msg and not (known and ctx.open_finding(known)):
+                    ctx.violation(f'case-{i}-onecpu.json', dict(argv=[repr(x) for x in o.argv], cpus=[0], oracle=msg), f'C02: --workers 0 with one available CPU ({sc.driver}): exit 0 but {msg}')
         ans = core.ask(core.MODEL, [o.request for _, _, o in runs])
     for (i, sc, o), a in zip(runs, ans):
         tag = getattr(sc, 'tag', 'gen')
